@@ -127,7 +127,8 @@ func aimShapes() *idlgen.Program {
 			}},
 		},
 	}
-	// > 8 and > 16 required fields
+	// 5, 8, 9, 14, 17 required fields: every shape of the bitset code (one uint8 with/without the `!= mask` wrapper,
+	// an array with a full byte, a tail with/without wrapper)
 	mkReq := func(name string, n int) *idlgen.Struct {
 		st := &idlgen.Struct{Kind: 's', Name: name}
 		kinds := []*idlgen.Type{i32, str, tBase(idlgen.Bool), tList(i32), tBase(idlgen.I64)}
@@ -137,7 +138,7 @@ func aimShapes() *idlgen.Program {
 		st.Fields = append(st.Fields, fld(int16(n+1), "opt", rO, i32, nil))
 		return st
 	}
-	main.Structs = append(main.Structs, mkReq("Req8", 8), mkReq("Req9", 9), mkReq("Req17", 17), &idlgen.Struct{Kind: 's', Name: "Empty"})
+	main.Structs = append(main.Structs, mkReq("Req5", 5), mkReq("Req8", 8), mkReq("Req9", 9), mkReq("Req14", 14), mkReq("Req17", 17), &idlgen.Struct{Kind: 's', Name: "Empty"})
 	return &idlgen.Program{Files: []*idlgen.File{main, base}}
 }
 
